@@ -11,7 +11,7 @@ noncomputable def sumTerm (e : ℝ) : ℝ := e
 /-- `epsilon_exp_sum += …` -/
 noncomputable def expTerm (e : ℝ) : ℝ := ((((1 : ℝ) - (Real.exp (-e))) * e) / ((1 : ℝ) + (Real.exp (-e))))
 /-- `epsilon_sq_sum += …` -/
-noncomputable def sqTerm (e : ℝ) : ℝ := (e ^ 2)
+noncomputable def sqTerm (e : ℝ) : ℝ := (e * e)
 /-- `total_epsilon_drv = …` -/
 noncomputable def drv (n x q s : ℝ) : ℝ := (x + (Real.sqrt (((2 : ℝ) * q) * (Real.log ((1 : ℝ) / s)))))
 /-- `total_epsilon_kov = …` -/
